@@ -5,6 +5,7 @@ package mc
 import (
 	"encoding/json"
 	"fmt"
+	"os"
 	"strings"
 	"time"
 
@@ -15,7 +16,7 @@ import (
 )
 
 // C04 (Engine W, batch enumeration): every ordered selection of <= 3 swap requests out of a
-// 11-request alphabet is placed in ONE real block (each request has its own sender and, where
+// 13-request alphabet is placed in ONE real block (each request has its own sender and, where
 // stated, its own recipient so that balance deltas are attributable), alone and together with one
 // price-moving transaction before or after them; the block is followed by an empty block.
 
@@ -29,6 +30,9 @@ type c04Req struct {
 	Limit    int64 // min out (exact-in) / max in (exact-out)
 	Mid      string
 	Build    func(w *World, r *c04Req) sdk.Msg
+	// Quote > 0: the limit is not a constant but Quote x what a DRY RUN of this very request on the
+	// pre-block state pays the recipient (bonus included) — how a front end sets a slippage limit
+	Quote float64
 }
 
 func c04Requests() []c04Req {
@@ -62,6 +66,8 @@ func c04Requests() []c04Req {
 		{Name: "bydenom_usdc_atom", Sender: "q8", In: "uusdc", Out: "uatom", Amt: 1e9, Limit: 1},
 		{Name: "in_p2_elys_usdc_tight", Sender: "q9", In: "uelys", Out: "uusdc", Amt: 1e10, Limit: 29000000000},
 		{Name: "bydenom_exact_out_atom_for_usdc", Sender: "r0", In: "uusdc", Out: "uatom", ExactOut: true, Amt: 5e8, Limit: 1e10},
+		{Name: "in_p3_atom_usdc_quoted_997_r1", Sender: "r1", In: "uatom", Out: "uusdc", Amt: 5e8, Quote: 0.997},
+		{Name: "in_p3_atom_usdc_quoted_997_r2", Sender: "r2", In: "uatom", Out: "uusdc", Amt: 5e8, Quote: 0.997},
 	}
 	rs[0].Build = in(&rs[0], rin(1, "uatom"))
 	rs[1].Build = in(&rs[1], rin(1, "uatom"))
@@ -75,6 +81,8 @@ func c04Requests() []c04Req {
 		return &ammtypes.MsgSwapByDenom{Sender: w.A(r.Sender).Addr.String(), Amount: C("uusdc", r.Amt), MinAmount: C("uatom", r.Limit), DenomIn: "uusdc", DenomOut: "uatom"}
 	}
 	rs[9].Build = in(&rs[9], rin(2, "uusdc"))
+	rs[11].Build = in(&rs[11], rin(3, "uusdc"))
+	rs[12].Build = in(&rs[12], rin(3, "uusdc"))
 	rs[10].Build = func(w *World, r *c04Req) sdk.Msg {
 		// exact-out by denom: Amount is the wanted OUT amount; MaxAmount (denominated in the out denom by
 		// the message's own rule) caps the input
@@ -144,6 +152,25 @@ func c04Plan(w *World, u c04Unit, reqs []c04Req) *BlockPlan {
 		plan.Txs = append(plan.Txs, *comp)
 	}
 	for _, i := range u.Reqs {
+		if reqs[i].Quote > 0 {
+			// dry run on a discarded branch of the pre-block state: handler + the amm end-blocker
+			r := reqs[i]
+			r.Limit = 1
+			c, _ := w.Ctx().CacheContext()
+			c = c.WithBlockHeight(w.Height() + 1).WithBlockTime(time.Unix(w.Env.Tm+5, 0).UTC())
+			who := w.A(r.Sender).Addr
+			b0 := w.App.BankKeeper.GetBalance(c, who, r.Out).Amount
+			m := r.Build(w, &r)
+			lim := int64(1)
+			if _, err := w.App.MsgServiceRouter().Handler(m)(c, m); err == nil {
+				w.App.AmmKeeper.EndBlocker(c)
+				got := w.App.BankKeeper.GetBalance(c, who, r.Out).Amount.Sub(b0)
+				if got.IsPositive() {
+					lim = int64(float64(got.Int64()) * r.Quote)
+				}
+			}
+			reqs[i].Limit = lim
+		}
 		r := reqs[i]
 		plan.Txs = append(plan.Txs, PlannedTx{Signer: r.Sender, Msgs: []sdk.Msg{r.Build(w, &r)}, Tag: r.Name})
 	}
@@ -202,6 +229,9 @@ func c04RunUnit(x *Explorer, u c04Unit, validate bool) *KStats {
 			rc = r.Sender
 		}
 		d := func(acct, denom string) math.Int { return post[acct][denom].Sub(pre[acct][denom]) }
+		if os.Getenv("VERIF_DEBUG_C04") != "" && r.Quote > 0 {
+			fmt.Fprintf(os.Stderr, "C04DBG %s root=%s req=%s limit=%d code=%d log=%q in=%s out=%s\n", u.String(), u.Root, r.Name, r.Limit, code, br.Res.TxResults[plan.TxIndex[off+k]].Log, d(r.Sender, r.In), d(rc, r.Out))
+		}
 		unchanged := func() bool {
 			for _, a := range []string{r.Sender, rc} {
 				for _, dn := range c04Denoms {
@@ -359,6 +389,11 @@ func c04Units(tier string) []interface{} {
 				add([]int{i, j})
 			}
 		}
+	}
+	// the two requests whose limit is a quote of their own dry run, on the root where pool 1 is far off
+	// target and its treasury can pay about one large bonus (both orders; the batch also picks its own)
+	for _, rs := range [][]int{{11}, {12}, {11, 12}, {12, 11}} {
+		us = append(us, c04Unit{Root: "R13", Reqs: rs, Comp: "none"})
 	}
 	comps := c04Companions[1:]
 	// single requests with every companion before / after
